@@ -71,6 +71,15 @@ def check(ctx, f, tr, ts, por=True):
         ic = [a for a in ir.drivers(cnt, exact=True) if q.state_of(a) == idle]
         ctx.ob('C54.idle', 'PHYResetController.idle-clear[%s]' % tag, len(ic) == 1 and q.is_zero(ic[0].rhs) and not ic[0].guard,
                ic[0].loc if ic else None, 'idle keeps the counter at zero')
+        # the FSM follows the domain reset (with power_on_reset it restarts in the reset state): the counter that measures
+        # the pulse must restart with it, at 0 -- a reset-less or non-zero-initialised counter makes the power-on pulse
+        # start from a stale count
+        si = ir.signals.get(cnt)
+        ctx.ob('C54.counter-reset', 'PHYResetController.counter.reset[%s]' % tag,
+               si is not None and not getattr(si, 'reset_less', False) and (si.init or 0) == 0, si.loc if si else None,
+               'the cycle counter must be reset with its clock domain to 0 (reset_less=%s, init=%s): the FSM restarts in its '
+               'initial state on a domain reset and measures the pulse from whatever the counter holds' % (
+                   getattr(si, 'reset_less', None), getattr(si, 'init', None)))
 
 
 def run(ctx):
